@@ -218,8 +218,16 @@ func cmdCheck(args []string) int {
 				fmt.Fprintf(os.Stderr, "  note x%d: %s\n", res.Notes[n], n)
 			}
 		}
+		// an exploration cut short by the check's time budget is a reduced bound
+		// (inconclusive), not a vacuous harness
+		budgetOut := res.Truncated && time.Now().After(deadline)
 		for _, r := range ent.Reach {
 			if _, ok := res.Reached[r]; !ok {
+				if budgetOut {
+					fmt.Fprintf(os.Stderr, "INCONCLUSIVE property=%s time budget of %d s exhausted in %s before witness %q was met\n", id, budget, ent.Func, r)
+					inconclusive++
+					continue
+				}
 				missingReach = append(missingReach, ent.Func+":"+r)
 			}
 		}
@@ -566,6 +574,11 @@ func buildReplayBinOpt(repo, verif string, harnessDirs []string, pkgPath string,
 	rb.bin = filepath.Join(tmp, "replay.test")
 	rb.env = append(os.Environ(), "GOFLAGS=-mod=mod", "GOPROXY=off", "GOSUMDB=off", "GOTOOLCHAIN=local")
 	buildArgs := []string{"test", "-c", "-vet=off", "-overlay", ovPath, "-o", rb.bin}
+	// the harness imports may turn an indirect requirement into a direct one; with
+	// -mod=mod the go tool would rewrite /repo/go.mod — give it a private copy instead
+	if mf := privateModfile(repo, tmp); mf != "" {
+		buildArgs = append(buildArgs, "-modfile="+mf)
+	}
 	if clock {
 		buildArgs = append(buildArgs, "-tags", "verifclock")
 	}
@@ -577,6 +590,24 @@ func buildReplayBinOpt(repo, verif string, harnessDirs []string, pkgPath string,
 		rb.err = "replay build failed: " + string(bout)
 	}
 	return rb
+}
+
+// privateModfile copies go.mod / go.sum of the repository into dir and returns the
+// copy's path (for -modfile), so that nothing the go tool decides to tidy up is
+// written into the working tree under test.
+func privateModfile(repo, dir string) string {
+	mod, err := os.ReadFile(filepath.Join(repo, "go.mod"))
+	if err != nil {
+		return ""
+	}
+	mf := filepath.Join(dir, "go.mod")
+	if os.WriteFile(mf, mod, 0o644) != nil {
+		return ""
+	}
+	if sum, err := os.ReadFile(filepath.Join(repo, "go.sum")); err == nil {
+		os.WriteFile(filepath.Join(dir, "go.sum"), sum, 0o644)
+	}
+	return mf
 }
 
 // run executes one entry natively on the model stored in replayPath.
